@@ -136,14 +136,19 @@ def run(ctx: Context) -> None:
                 ctx.check('R10.2', bool(norm) and not enclosing_ifs(arr, norm[0]) and all(aflow.resolve(r.value) is norm[0] for r in arr.returns()),
                           "face_node: the required table is always the supplied one", arr, arr.node, construct='face_node_array returns the normalised table')
             else:
-                g = [(norm_text(st.test), inb) for st, inb in enclosing_ifs(arr, norm[0])] if norm else []
-                ok = (f"self.has_valid_{tab}_connectivity", True) in g and any(aflow.resolve(r.value) is norm[0] for r in arr.returns())
-                ctx.check('R10.2', ok, f"{tab}: the supplied table is used exactly when has_valid_{tab}_connectivity", arr, arr.node,
-                          construct=f"guard {[t for t, _ in g]}")
-                fall = [r for r in arr.returns() if norm_text(r.value) == f"self.make_{tab}_array()"]
-                ctx.check('R10.2', len(fall) == 1 and not enclosing_ifs(arr, fall[0])[len([x for x in enclosing_ifs(arr, arr.node)]):],
+                from .common import path_conditions
+                valid = f"self.has_valid_{tab}_connectivity"
+                allowed = {('self.has_edge_dimension', True)}
+                used = [r for r in arr.returns() if aflow.resolve(r.value) is norm[0]] if norm else []
+                g = [(norm_text(t), pol) for t, pol in path_conditions(arr, used[0])] if used else []
+                ok = len(used) == 1 and (valid, True) in g and set(g) <= allowed | {(valid, True)}
+                ctx.check('R10.2', ok, f"{tab}: the supplied table is used exactly when has_valid_{tab}_connectivity", arr, used[0] if used else arr.node,
+                          construct=f"supplied table returned under {g}")
+                fall = [r for r in arr.returns() if norm_text(aflow.resolve(r.value)) == f"self.make_{tab}_array()"]
+                gf = [(norm_text(t), pol) for t, pol in path_conditions(arr, fall[0])] if fall else []
+                ctx.check('R10.2', len(fall) == 1 and (valid, False) in gf and set(gf) <= allowed | {(valid, False)} and len(arr.returns()) == 2,
                           f"{tab}: otherwise it is derived by make_{tab}_array()", arr, fall[0] if fall else arr.node,
-                          construct=f"fallback: {norm_text(fall[0]) if fall else 'absent'}")
+                          construct=f"fallback: {norm_text(fall[0]) if fall else 'absent'} under {gf}")
                 hv = ctx.func(f"{TOPO}.has_valid_{tab}_connectivity")
                 body_txt = [norm_text(s) for s in hv.body]
                 lookups = [n for n in ast.walk(hv.node) if isinstance(n, ast.Subscript) and norm_text(n.value) == 'self.mesh_attributes']
@@ -193,55 +198,107 @@ def run(ctx: Context) -> None:
 
     # ------------------------------------------------------------------ R10.4
     with ctx.section('R10.4'):
+        from ..pattern import Matcher
+
+        def first(m, *alts, within=None):
+            """The statement matched by the first alternative that matches exactly once."""
+            for a_ in alts:
+                st = m.stmt(a_, within)
+                if st is not None:
+                    return st
+            return None
+
+        def table_shape(fi):
+            """Shape expression of the numpy.full(...) that the masked table is built from, resolved through locals."""
+            fl = ctx.flow(fi)
+            mm = Matcher(ctx, fi)
+            st = mm.stmt('$table = numpy.ma.masked_array($filled, mask=True)')
+            if st is None:
+                return None, None
+            full = [c for c in calls_in(fi) if callee(ctx, fi, c) == 'numpy.full']
+            fuse = next((n for n in ast.walk(st.value) if isinstance(n, ast.Name) and n.id == mm.name('filled')), None)
+            if len(full) != 1 or fuse is None or fl.resolve(fuse) is not full[0] or not full[0].args:
+                return None, mm.name('table')
+            ok_fill = len(full[0].args) >= 2 and norm_text(full[0].args[1]) == 'self.sensible_fill_value'
+            return (norm_text(fl.resolve(full[0].args[0])) if ok_fill else None), mm.name('table')
+
         it = ctx.func(f"{TOPO}._face_and_node_pair_iter")
-        body = [norm_text(s) for s in ast.walk(it.node) if isinstance(s, (ast.Assign, ast.Expr, ast.For))]
-        ok = (any(t == 'node_indexes = node_indexes.compressed()' for t in body)
-              and any(t == 'node_indexes = numpy.append(node_indexes, node_indexes[0])' for t in body)
-              and any('yield (face_index, list(utils.pairwise(node_indexes)))' in t for t in body)
-              and any(isinstance(n, ast.For) and norm_text(n.iter) == 'enumerate(face_node)' for n in ast.walk(it.node))
-              and any(norm_text(n) == 'face_node = self.face_node_array' for n in it.body))
-        ctx.check('R10.4', ok, "a face's edges are its consecutive node pairs, closing back to the first node, over the normalised face-node table", it, it.node)
+        iflow = ctx.flow(it)
+        ys = [n for n in ast.walk(it.node) if isinstance(n, ast.Yield)]
+        ok = False
+        detail = ''
+        if len(ys) == 1 and isinstance(ys[0].value, ast.Tuple) and len(ys[0].value.elts) == 2:
+            fexpr, pexpr = ys[0].value.elts
+            ENUM = ('call', ('global', 'enumerate'), (('attr', ('param', 'self'), 'face_node_array'),), ())
+            fc = iflow.canon(fexpr)
+            pe = iflow.resolve(pexpr)
+            if isinstance(pe, ast.Call) and isinstance(pe.func, ast.Name) and pe.func.id == 'list' and len(pe.args) == 1:
+                pe = iflow.resolve(pe.args[0])
+            if isinstance(pe, ast.Call) and callee(ctx, it, pe) == 'emsarray.utils.pairwise' and len(pe.args) == 1:
+                xc = iflow.canon(pe.args[0])
+                detail = norm_text(iflow.resolve(pe.args[0]))
+                okf = isinstance(fc, tuple) and fc[:3] == ('iter', ENUM, (0,))
+                okx = False
+                if isinstance(xc, tuple) and xc[0] == 'call' and xc[1] == ('attr', ('global', 'numpy'), 'append') and len(xc[2]) == 2 and not xc[3]:
+                    c1, c2 = xc[2]
+                    row_ok = (isinstance(c1, tuple) and c1[0] == 'call' and isinstance(c1[1], tuple) and c1[1][0] == 'attr' and c1[1][2] == 'compressed'
+                              and isinstance(c1[1][1], tuple) and c1[1][1][:3] == ('iter', ENUM, (1,)) and not c1[2])
+                    okx = row_ok and c2 == ('sub', c1, ('const', '0'))
+                ok = okf and okx
+        ctx.check('R10.4', ok, "a face's edges are its consecutive node pairs, closing back to the first node, over the normalised face-node table", it,
+                  ys[0] if ys else it.node, construct=f"yield face, pairwise({detail})")
         pw = ctx.func('emsarray.utils.pairwise')
-        ok = [norm_text(s) for s in pw.body] == ['a, b = itertools.tee(iterable)', 'next(b, None)', 'return zip(a, b)']
+        mp = Matcher(ctx, pw)
+        ok = mp.ordered(f"$a, $b = itertools.tee({pw.params[0]})", 'next($b, None)', 'return zip($a, $b)') and len([s_ for s_ in pw.body if not (isinstance(s_, ast.Expr) and isinstance(s_.value, ast.Constant))]) == 3
         ctx.check('R10.4', ok, "pairwise yields (s0,s1), (s1,s2), ...", pw, pw.node)
         me = ctx.func(f"{TOPO}.make_edge_node_array")
-        loops = [n for n in walk_no_nested(me.node) if isinstance(n, ast.For)]
-        ok = any(norm_text(l.iter) == 'self._face_and_node_pair_iter()' for l in loops)
-        ok = ok and any(norm_text(n) == 'low, high = sorted(pair)' for n in ast.walk(me.node) if isinstance(n, ast.Assign))
-        ok = ok and any(norm_text(n) == 'low_highs[low].add(high)' for n in ast.walk(me.node) if isinstance(n, ast.Expr))
-        ctx.check('R10.4', ok, "edges are de-duplicated by sorted (unordered) node pair over that iterator", me, me.node)
+        mm = Matcher(ctx, me)
+        lp = first(mm, "for $f, $pairs in self._face_and_node_pair_iter():\n    for $pair in $pairs:\n        $low, $high = sorted($pair)\n        $lh[$low].add($high)",
+                   "for $f, $pairs in self._face_and_node_pair_iter():\n    for $pair in $pairs:\n        $lh[min($pair)].add(max($pair))")
+        ok = lp is not None and mm.stmt('$lh = defaultdict(set)') is not None \
+            and first(mm, 'return numpy.array([[$a, $b] for $a, $bs in $lh.items() for $b in $bs], dtype=self.sensible_dtype)',
+                      'return numpy.array([[$a, $b] for $a in $lh for $b in $lh[$a]], dtype=self.sensible_dtype)') is not None
+        ctx.check('R10.4', ok, "edges are de-duplicated by sorted (unordered) node pair over that iterator", me, lp or me.node)
         mf = ctx.func(f"{TOPO}.make_face_edge_array")
-        loops = [n for n in walk_no_nested(mf.node) if isinstance(n, ast.For)]
-        ok = any(norm_text(l.iter) == 'self._face_and_node_pair_iter()' for l in loops)
-        dc = [n for n in ast.walk(mf.node) if isinstance(n, ast.DictComp)]
-        ok = ok and len(dc) == 1 and norm_text(dc[0].key) == 'frozenset(edge)' and norm_text(dc[0].value) == 'edge_index' \
-            and norm_text(dc[0].generators[0].iter) == 'enumerate(self.edge_node_array)'
-        ok = ok and any(norm_text(n) == 'edge_index = node_pair_to_edge_index[frozenset(node_pair)]' for n in ast.walk(mf.node) if isinstance(n, ast.Assign))
-        ok = ok and any(norm_text(n) == 'face_edge[face_index, column] = edge_index' for n in ast.walk(mf.node) if isinstance(n, ast.Assign))
-        ok = ok and any(isinstance(n, ast.For) and norm_text(n.iter) == 'enumerate(node_pairs)' and norm_text(n.target) == '(column, node_pair)' for n in ast.walk(mf.node))
-        ctx.check('R10.4', ok, "face-edge: column k of a face is the edge (looked up by unordered pair in the edge-node table in use) of its k-th node pair", mf, mf.node)
-        shape = [n for n in walk_no_nested(mf.node) if isinstance(n, ast.Assign) and norm_text(n.targets[0]) == 'shape']
-        ctx.check('R10.4', bool(shape) and norm_text(shape[0].value) == '(self.face_count, self.max_node_count)', "face-edge has one row per face and max_node_count columns", mf,
-                  shape[0] if shape else mf.node)
+        mm = Matcher(ctx, mf)
+        ok = mm.stmt('$map = {frozenset($e): $i for $i, $e in enumerate(self.edge_node_array)}') is not None
+        shp, tbl = table_shape(mf)
+        if ok and tbl:
+            mm.bind['fe'] = tbl
+        lp = first(mm, "for $f, $pairs in self._face_and_node_pair_iter():\n    for $col, $pair in enumerate($pairs):\n        $ei = $map[frozenset($pair)]\n        $fe[$f, $col] = $ei",
+                   "for $f, $pairs in self._face_and_node_pair_iter():\n    for $col, $pair in enumerate($pairs):\n        $fe[$f, $col] = $map[frozenset($pair)]") if ok else None
+        ctx.check('R10.4', ok and lp is not None, "face-edge: column k of a face is the edge (looked up by unordered pair in the edge-node table in use) of its k-th node pair", mf, lp or mf.node)
+        ctx.check('R10.4', shp == '(self.face_count, self.max_node_count)', "face-edge has one row per face and max_node_count columns", mf,
+                  mf.node, construct=f"face_edge table shape {shp}")
         mef = ctx.func(f"{TOPO}.make_edge_face_array")
-        txt = [norm_text(n) for n in ast.walk(mef.node) if isinstance(n, (ast.Assign, ast.AugAssign, ast.For))]
-        ok = (any(t.startswith('for face_index, edge_indexes in enumerate(self.face_edge_array)') for t in txt)
-              and any(t.startswith('for edge_index in edge_indexes.compressed()') for t in txt)
-              and 'edge_face[edge_index, edge_face_count[edge_index]] = face_index' in txt and 'edge_face_count[edge_index] += 1' in txt
-              and 'shape = (self.edge_count, 2)' in txt)
-        ctx.check('R10.4', ok, "edge-face: every face is recorded on each of its edges, in the next free of two slots", mef, mef.node)
+        mm = Matcher(ctx, mef)
+        shp, tbl = table_shape(mef)
+        if tbl:
+            mm.bind['ef'] = tbl
+        lp = first(mm, "for $f, $edges in enumerate(self.face_edge_array):\n    for $e in $edges.compressed():\n        $ef[$e, $cnt[$e]] = $f\n        $cnt[$e] += 1",
+                   "for $f, $edges in enumerate(self.face_edge_array):\n    for $e in $edges.compressed():\n        $ef[$e, $cnt[$e]] = $f\n        $cnt[$e] = $cnt[$e] + 1")
+        ok = lp is not None and shp == '(self.edge_count, 2)' and mm.stmt('$cnt = numpy.zeros(self.edge_count, dtype=self.sensible_dtype)') is not None
+        ctx.check('R10.4', ok, "edge-face: every face is recorded on each of its edges, in the next free of two slots", mef, lp or mef.node,
+                  construct=f"edge_face shape {shp}; loop {'recognised' if lp is not None else 'not recognised'}")
         mff = ctx.func(f"{TOPO}.make_face_face_array")
-        txt = [norm_text(n) for n in ast.walk(mff.node) if isinstance(n, (ast.Assign, ast.AugAssign, ast.For, ast.If))]
-        ok = (any(t.startswith('for edge_index, face_indexes in enumerate(self.edge_face_array)') for t in txt)
-              and 'left, right = face_indexes' in txt
-              and 'face_face[left, face_count[left]] = right' in txt and 'face_face[right, face_count[right]] = left' in txt
-              and 'face_count[left] += 1' in txt and 'face_count[right] += 1' in txt
-              and any(t.startswith('if numpy.any(numpy.ma.getmask(face_indexes))') for t in txt))
-        ctx.check('R10.4', ok, "face-face: each interior edge links its two faces in both directions (symmetric adjacency); boundary edges are skipped", mff, mff.node)
+        mm = Matcher(ctx, mff)
+        shp, tbl = table_shape(mff)
+        if tbl:
+            mm.bind['ff'] = tbl
+        heads = ["for $e, $pair in enumerate(self.edge_face_array):", "for $pair in self.edge_face_array:"]
+        skips = ["    if numpy.any(numpy.ma.getmask($pair)):\n        continue", "    if numpy.ma.getmask($pair).any():\n        continue",
+                 "    if numpy.ma.is_masked($pair):\n        continue"]
+        bodies = ["    $l, $r = $pair\n    $ff[$l, $cnt[$l]] = $r\n    $ff[$r, $cnt[$r]] = $l\n    $cnt[$l] += 1\n    $cnt[$r] += 1",
+                  "    $l, $r = $pair\n    $ff[$l, $cnt[$l]] = $r\n    $cnt[$l] += 1\n    $ff[$r, $cnt[$r]] = $l\n    $cnt[$r] += 1"]
+        lp = first(mm, *[f"{h}\n{sk}\n{b_}" for h in heads for sk in skips for b_ in bodies])
+        ok = lp is not None and mm.stmt('$cnt = numpy.zeros(self.face_count, dtype=self.sensible_dtype)') is not None
+        ctx.check('R10.4', ok, "face-face: each interior edge links its two faces in both directions (symmetric adjacency); boundary edges are skipped", mff, lp or mff.node)
         for name in ('make_edge_face_array', 'make_face_face_array', 'make_face_edge_array'):
             fi = ctx.func(f"{TOPO}.{name}")
-            ok = any('numpy.ma.masked_array(filled, mask=True)' in norm_text(n) for n in fi.body) and \
-                all(norm_text(r.value) in ('edge_face', 'face_face', 'face_edge') for r in fi.returns())
+            shp, tbl = table_shape(fi)
+            fl_ = ctx.flow(fi)
+            made = [c for c in calls_in(fi) if callee(ctx, fi, c) == 'numpy.ma.masked_array']
+            ok = tbl is not None and shp is not None and len(made) == 1 and bool(fi.returns()) and all(fl_.resolve(r.value) is made[0] for r in fi.returns())
             ctx.check('R10.4', ok, "derived tables start fully masked, so unused slots stay missing", fi, fi.node, construct=f"{name}: masked_array(filled, mask=True)")
 
     # ------------------------------------------------------------------ R10.5
